@@ -772,6 +772,58 @@ func handle(line string) string {
 		}
 		s, _ := runEnc(proto, f[2] == "1", f[3], v)
 		return s
+	case "enc2":
+		// enc2 <proto> <su> <rh> <A> ;; <B>: ONE Encoder encodes A (whatever comes of it), then B; the answer is what `enc` would
+		// print for B, with the chunks written for B only: an Encoder keeps nothing from one Encode call to the next
+		if len(f) < 7 {
+			return "BADCASE"
+		}
+		proto, err := strconv.Atoi(f[1])
+		if err != nil {
+			return "BADCASE"
+		}
+		sep := -1
+		for i := 4; i < len(f); i++ {
+			if f[i] == ";;" {
+				sep = i
+				break
+			}
+		}
+		if sep < 0 {
+			return "BADCASE"
+		}
+		va, err := parseValue(f[4:sep])
+		if err != nil {
+			return "BADCASE"
+		}
+		vb, err := parseValue(f[sep+1:])
+		if err != nil {
+			return "BADCASE"
+		}
+		var log []any
+		g, err := refHook(f[3], &log)
+		if err != nil {
+			return "BADCASE"
+		}
+		w := &chunkWriter{}
+		e := og.NewEncoderWithConfig(w, &og.EncoderConfig{Protocol: proto, PersistentRef: g, StrictUnicode: f[2] == "1"})
+		if _, p := encodeOne(e, va); p != "" {
+			return "ERR PANIC(first):" + p
+		}
+		first := len(w.chunks)
+		errB, p := encodeOne(e, vb)
+		chunks := w.chunks[first:]
+		if p != "" {
+			return "ERR PANIC:" + p + " " + strconv.Itoa(len(chunks))
+		}
+		if errB != nil {
+			return "ERR " + encClass(errB) + " " + strconv.Itoa(len(chunks))
+		}
+		hs := make([]string, len(chunks))
+		for i, c := range chunks {
+			hs[i] = hexOrDash(string(c))
+		}
+		return "OK " + strings.Join(hs, ",")
 	case "encf":
 		if len(f) < 5 {
 			return "BADCASE"
